@@ -921,6 +921,13 @@ func (env *Env) evalCall(e *Expr) CV {
 	case "to32":
 		x := r.scalar(arg(0).V)
 		return CV{V: Scalar{r.fpToBits(tb.Raw("(_ to_fp 8 24) RNE", FP(32), r.toFP(x)), 32)}, T: types.Typ[types.Float32]}
+	case "inpos":
+		return CV{V: Scalar{r.e.ghost(env.cur, "in.pos", BV64)}, T: it}
+	case "inlen":
+		return CV{V: Scalar{r.e.ghost(env.cur, "in.len", BV64)}, T: it}
+	case "instream":
+		// the whole input stream as a (ghost, immutable) byte string
+		return CV{V: SliceV{Base: tb.BVI(64, 0), Off: tb.BVI(64, 0), Len: r.e.ghost(env.cur, "in.len", BV64), Arr: r.e.ghost(env.cur, "in.data", ByteAr)}, T: specTypes["bytes"]}
 	case "tlen":
 		return CV{V: Scalar{r.e.ghost(env.cur, "trace.len", BV64)}, T: it}
 	case "tbytes":
@@ -962,6 +969,13 @@ func (env *Env) evalCall(e *Expr) CV {
 			panic(cerr("%s expects byte strings", name))
 		}
 		return CV{V: Scalar{r.stringEq(env.cur, x, y)}, T: boolT}
+	case "bytesframe":
+		// bytesframe(p, n): the byte object behind p is unchanged outside p[0:n] (relative to the old state)
+		v := arg(0).V.(SliceV)
+		n := argInt(1)
+		a := tb.BoundVar("a", BV64)
+		return CV{V: Scalar{tb.Forall([]*Term{a}, tb.Implies(tb.Not(tb.ULt(tb.Sub(a, v.Off), n)),
+			tb.Eq(tb.Select(tb.Select(env.cur.BH, v.Base), a), tb.Select(tb.Select(env.old.BH, v.Base), a))))}, T: boolT}
 	case "cowned":
 		switch v := arg(0).V.(type) {
 		case SliceV:
